@@ -690,6 +690,98 @@ let handle_shape fields =
     end
   | _ -> raise (Parse "bad shape line")
 
+
+(* ---------- family: graph (structure of the semantic graph, C06) ---------- *)
+let label_table : (string, int) H.t = H.create 1000
+let label_names : (int, string) H.t = H.create 1000
+let () =
+  L.iter (fun (w, k) -> H.replace label_table w k; H.replace label_names k w)
+    [ ("ann", 1); ("version", 2); ("incstd", 3); ("incfile", 4); ("if", 5); ("while", 6); ("for", 7); ("switch", 8);
+      ("gatedef", 9); ("def", 10); ("block", 11); ("single", 12); ("leaf", 13); ("case", 14);
+      ("oannotated", 50); ("oif", 51); ("owhile", 52); ("ofor", 53); ("oswitch", 54); ("ogatedef", 55); ("odef", 56);
+      ("oblock", 57); ("osome", 58); ("onone", 59); ("ostmts", 60); ("ocase", 61); ("oleaf", 62); ("oanns", 63); ("obad", 99) ]
+let next_label = ref 1000
+let intern w =
+  match H.find_opt label_table w with
+  | Some k -> k
+  | None -> let k = !next_label in incr next_label; H.replace label_table w k; H.replace label_names k w; k
+(* tokens of an s-expression *)
+let sexp_tokens (s : string) : string list =
+  let out = ref [] and buf = Buffer.create 16 in
+  let flush () = if Buffer.length buf > 0 then (out := Buffer.contents buf :: !out; Buffer.clear buf) in
+  String.iter (fun c ->
+      match c with
+      | '(' | ')' -> flush (); out := String.make 1 c :: !out
+      | ' ' -> flush ()
+      | c -> Buffer.add_char buf c) s;
+  flush (); L.rev !out
+let rec parse_gn (toks : string list) : Graph.gn * string list =
+  match toks with
+  | "(" :: w :: r ->
+    let rec kids r acc =
+      match r with
+      | ")" :: r' -> (L.rev acc, r')
+      | [] -> raise (Parse "sexp: unbalanced")
+      | _ -> let (k, r') = parse_gn r in kids r' (k :: acc) in
+    let (ks, r') = kids r [] in
+    (Graph.GN (n_of_int (intern w), ks), r')
+  | "(" :: [] | ")" :: _ | [] -> raise (Parse "sexp: malformed")
+  | w :: r -> (Graph.GN (n_of_int (intern w), []), r)
+let rec show_gn (g : Graph.gn) : string =
+  match g with
+  | Graph.GN (l, ks) ->
+    let w = match H.find_opt label_names (int_of_n l) with Some w -> w | None -> string_of_n l in
+    if ks = [] then w else "(" ^ String.concat " " (w :: L.map show_gn ks) ^ ")"
+let gn_of_string s =
+  let (g, rest) = parse_gn (sexp_tokens s) in
+  if rest <> [] then raise (Parse "sexp: trailing tokens");
+  g
+let rec first_diff (a : Graph.gn list) (b : Graph.gn list) : string =
+  match a, b with
+  | [], [] -> "-"
+  | x :: a', y :: b' -> if x = y then first_diff a' b' else "impl " ^ show_gn x ^ " <> model " ^ show_gn y
+  | x :: _, [] -> "impl has extra " ^ show_gn x
+  | [], y :: _ -> "model has extra " ^ show_gn y
+let handle_graph fields =
+  match fields with
+  | [src; impl; orc] ->
+    let input = src in
+    if impl = "PANIC" || impl = "SYNTAX" then (count_case input true; relay_oracle "graph" input orc)
+    else begin
+      let s = gn_of_string src and o = gn_of_string impl in
+      let (Graph.GN (_, stmts)) = s and (Graph.GN (_, outs)) = o in
+      count_case input (L.length stmts > 1); sample "graph" input impl;
+      let m = Graph.translate stmts in
+      if m <> outs then mismatch "graph" (first_diff outs m ^ " ;; " ^ orc) "-" "-";
+      (* property: outside the known class the theorems of C06 apply to the model's output *)
+      let known_ann = Graph.k_annotation_in_block stmts in
+      if is_prefix "KNOWN C06.annotation_inside_block" orc <> known_ann then
+        oracle_fail "graph" input "FAIL C06: harness and model disagree on whether an annotation sits inside a block";
+      if known_ann then known_hit "graph" "C06.annotation_inside_block" input
+      else if is_prefix "FAIL" orc then oracle_fail "graph" input orc
+    end
+  | _ -> raise (Parse "bad graph line")
+
+
+let asg_op_name = function
+  | 0 -> "Or" | 1 -> "And" | 2 -> "BitOr" | 3 -> "BitXOr" | 4 -> "BitAnd" | 5 -> "Eq" | 6 -> "Neq" | 7 -> "Lt" | 8 -> "Le"
+  | 9 -> "Gt" | 10 -> "Ge" | 11 -> "Shl" | 12 -> "Shr" | 13 -> "Add" | 14 -> "Sub" | 15 -> "Mul" | 16 -> "Div" | 17 -> "Rem"
+  | 18 -> "PowerOp" | 19 -> "ConcatenationOp" | _ -> "?"
+let handle_graphop fields =
+  match fields with
+  | [code; impl; orc] ->
+    let input = "operator " ^ code in
+    count_case (input ^ orc) true;
+    if impl = "PANIC" || impl = "SYNTAX" then relay_oracle "graph" input orc
+    else begin
+      let c = int_of_string code in
+      let m = int_of_n (Graph.asg_binop (n_of_int c)) in
+      if asg_op_name m <> impl then mismatch "graph" input impl (asg_op_name m);
+      (* property: the operator keeps its meaning *)
+      if m <> c then known_hit "graph" "C06.power_stored_as_concatenation" input
+    end
+  | _ -> raise (Parse "bad graphop line")
+
 (* ---------- main loop ---------- *)
 let () =
   Array.iter (fun a -> if a = "--nodedupe" then dedupe := false) Sys.argv;
@@ -713,6 +805,8 @@ let () =
              | "use" -> handle_use fields
              | "scope" -> handle_scope fields
              | "shape" -> handle_shape fields
+             | "graph" -> handle_graph fields
+             | "graphop" -> handle_graphop fields
              | _ -> raise (Parse ("unknown family " ^ fam)))
           with Parse m -> report "DRIVER-ERROR" [m; line]; incr mismatches)
        | [] -> ()
